@@ -9,6 +9,8 @@ OBLIGATIONS = [
          bounds="all sequences of 3 operations from {ORG, RORG, PHASE, DEPHASE, SEGMENT, SAVE, RESTORE, emit 1..8, reserve 1..65536}, arbitrary 64-bit arguments"),
     dict(BASE, name="counters_k4", defs=["K=4", "STRINGSIZE=16", "NO_ALIGN"], unwind=10, unwind_fn={"harness": 16}, timeout=3000, tier="thorough",
          bounds="all sequences of 4 operations (as counters_k3)"),
+    dict(BASE, name="phase_k5", defs=["K=5", "STRINGSIZE=16", "PHASE_ONLY"], unwind=10, unwind_fn={"harness": 16}, timeout=1500,
+         bounds="all sequences of 5 operations from {PHASE, DEPHASE, emit 1..8} (PHASE nesting up to 5 deep), arbitrary 64-bit arguments"),
     dict(BASE, name="align_low", defs=["K=1", "STRINGSIZE=16", "ALIGN_ONLY", "ALIGN_NMAX=255", "ALIGN_BASE=0ull"], unwind=10, unwind_fn={"harness": 16}, timeout=900,
          bounds="ALIGN n, n 0..255, address 0..65535"),
     dict(BASE, name="align_2g", defs=["K=1", "STRINGSIZE=16", "ALIGN_ONLY", "ALIGN_NMAX=255", "ALIGN_BASE=0x7fff8000ull"], unwind=10, unwind_fn={"harness": 16}, timeout=900,
